@@ -312,6 +312,40 @@ pub fn stress_inputs() -> Vec<(String, String)> {
         add(&format!("many-labels-{}", n), (0..n).map(|i| format!("l{}: nop\n", i)).collect::<String>());
         add(&format!("many-operands-{}", n), format!(".db {}", vec!["1"; n].join(",")));
     }
+    // nesting hidden behind a comment character that is inside a string or character literal
+    for n in [3000usize, 30000] {
+        add(&format!("deep-parentheses-{}-after-semicolon-in-string", n), format!(".db \";\", {}1{}", "(".repeat(n), ")".repeat(n)));
+        add(&format!("deep-parentheses-{}-after-slashes-in-string", n), format!(".db \"//\", {}1{}", "(".repeat(n), ")".repeat(n)));
+        add(&format!("deep-parentheses-{}-after-semicolon-char", n), format!(".db ';', {}1{}", "(".repeat(n), ")".repeat(n)));
+        add(&format!("deep-unary-{}-after-semicolon-in-message", n), format!(".message \"a;b\"\n.db \"x;\", {}1", "-".repeat(n)));
+    }
+    // evaluation depth = symbol nesting × expression nesting
+    for (syms, ops) in [(10usize, 200usize), (60, 200), (99, 250), (99, 120)] {
+        let mut sdef = String::new();
+        for i in 0..syms {
+            sdef.push_str(&format!(".equ dq{} = {}dq{}\n", i, "-~".repeat(ops / 2), i + 1));
+        }
+        sdef.push_str(&format!(".equ dq{} = 1\n.dw low(dq0)", syms));
+        add(&format!("equ-chain-{}-symbols-x-{}-unary-operators", syms, ops), sdef);
+        let mut pdef = String::new();
+        for i in 0..syms {
+            pdef.push_str(&format!(".equ dp{} = {}dp{}{}\n", i, "(".repeat(ops), i + 1, ")".repeat(ops)));
+        }
+        pdef.push_str(&format!(".equ dp{} = 1\n.dw low(dp0)", syms));
+        add(&format!("equ-chain-{}-symbols-x-{}-parentheses", syms, ops), pdef);
+    }
+    // exponential evaluation / expansion
+    for n in [20usize, 40, 90] {
+        let mut e = String::from(".equ ex0 = 1\n");
+        for i in 1..=n {
+            e.push_str(&format!(".equ ex{} = ex{} + ex{}\n", i, i - 1, i - 1));
+        }
+        e.push_str(&format!(".dw low(ex{})", n));
+        add(&format!("equ-doubling-chain-{}", n), e);
+    }
+    add("macro-argument-doubling", ".macro m\n m @0+@0\n.endm\n m 1".into());
+    add("macro-argument-doubling-two", ".macro m\n m @0*@0, @1\n.endm\n m 1, r16".into());
+    add("macro-argument-growing-nested", ".macro a\n b (@0)+(@0)+(@0)\n.endm\n.macro b\n a (@0)|(@0)\n.endm\n a 1".into());
     add("equ-self-reference", ".equ a = a\n.dw a".into());
     add("equ-self-reference-unused", ".equ a = a+1".into());
     add("equ-cycle-2", ".equ a = b\n.equ b = a\nldi r16, a".into());
@@ -495,6 +529,34 @@ pub fn run(ctx: &Ctx) -> Result<Ev, String> {
         let st = std::sync::Arc::new(st);
         let n = st.len();
         legs.push(Leg { name: "stress", len: n, get: Box::new(move |i| (st[i].0.clone(), st[i].1.clone())) });
+    }
+    // include cycles and very deep include chains (build_file requests; files live in scratch)
+    {
+        let dir = crate::run::scratch_dir().join("c16-inc");
+        let _ = std::fs::create_dir_all(&dir);
+        let w = |n: &str, t: String| {
+            let _ = std::fs::write(dir.join(n), t);
+        };
+        w("self.asm", "nop\n.include \"self.asm\"\n".into());
+        w("ma.asm", ".include \"mb.inc\"\n".into());
+        w("mb.inc", "nop\n.include \"mc.inc\"\n".into());
+        w("mc.inc", ".include \"mb.inc\"\n".into());
+        w("cond.asm", ".if 1\n.include \"cond.asm\"\n.endif\n".into());
+        for i in 0..3000 {
+            w(&format!("chain{}.inc", i), format!("nop\n.include \"chain{}.inc\"\n", i + 1));
+        }
+        w("chain3000.inc", "nop\n".into());
+        w("chain.asm", ".include \"chain0.inc\"\n".into());
+        w("chain40.asm", ".include \"chain2960.inc\"\n".into());
+        w("bin.asm", ".include \"blob.bin\"\n".into());
+        let _ = std::fs::write(dir.join("blob.bin"), (0..20000u32).map(|i| (i * 7919 % 251) as u8).collect::<Vec<u8>>());
+        let reqs: Vec<(String, String)> = ["self.asm", "ma.asm", "cond.asm", "chain.asm", "chain40.asm", "bin.asm"]
+            .iter()
+            .map(|n| (format!("\u{2}FILE:{}", json!({"main": dir.join(n).to_string_lossy(), "paths": [dir.to_string_lossy()]})), format!("include:{}", n)))
+            .collect();
+        let reqs = std::sync::Arc::new(reqs);
+        let n = reqs.len();
+        legs.push(Leg { name: "include-files", len: n, get: Box::new(move |i| (reqs[i].0.clone(), reqs[i].1.clone())) });
     }
     let total = Mutex::new(Ev::new("C16"));
     let infra: Mutex<Option<String>> = Mutex::new(None);
